@@ -212,11 +212,12 @@ func c16R3(p *Prog, r *Report) {
 	r.Fn(FuncName(upd))
 	// cache maps: MakeMap values that receive MapUpdate in this function
 	caches := map[ssa.Value]bool{}
+	canon := localMapAliases(upd)
 	var updates []*ssa.MapUpdate
 	Instrs(upd, func(in ssa.Instruction) {
 		if mu, ok := in.(*ssa.MapUpdate); ok {
-			if _, isMk := mu.Map.(*ssa.MakeMap); isMk {
-				caches[mu.Map] = true
+			if _, isMk := canon(mu.Map).(*ssa.MakeMap); isMk {
+				caches[canon(mu.Map)] = true
 				updates = append(updates, mu)
 			}
 		}
@@ -234,7 +235,7 @@ func c16R3(p *Prog, r *Report) {
 				return
 			}
 			seen[v] = true
-			if lk, ok := v.(*ssa.Lookup); ok && caches[lk.X] {
+			if lk, ok := v.(*ssa.Lookup); ok && caches[canon(lk.X)] {
 				found = true
 				return
 			}
@@ -301,7 +302,7 @@ func c16R3(p *Prog, r *Report) {
 	good := false
 	Instrs(upd, func(in ssa.Instruction) {
 		rg, ok := in.(*ssa.Range)
-		if !ok || !caches[rg.X] {
+		if !ok || !caches[canon(rg.X)] {
 			return
 		}
 		// find publish calls whose message argument derives from a Lookup in a cache keyed by this range's key
@@ -514,13 +515,18 @@ func c16More(p *Prog, r *Report) {
 	}
 	// caches and the parameters they flow into
 	caches := map[ssa.Value]bool{}
+	canon := localMapAliases(upd)
 	Instrs(upd, func(in ssa.Instruction) {
 		if mu, ok := in.(*ssa.MapUpdate); ok {
-			if _, isMk := mu.Map.(*ssa.MakeMap); isMk {
-				caches[mu.Map] = true
+			if _, isMk := canon(mu.Map).(*ssa.MakeMap); isMk {
+				caches[canon(mu.Map)] = true
 			}
 		}
 	})
+	// every value of the updater that is one of the caches (the map itself, or a read of the
+	// struct field it is kept in)
+	isCacheVal := func(v ssa.Value) bool { return caches[canon(v)] }
+	_ = isCacheVal
 	type site struct {
 		fn *ssa.Function
 		v  ssa.Value
@@ -529,6 +535,11 @@ func c16More(p *Prog, r *Report) {
 	for c := range caches {
 		work = append(work, site{upd, c})
 	}
+	Instrs(upd, func(in ssa.Instruction) {
+		if v, ok := in.(ssa.Value); ok && canon(v) != v && caches[canon(v)] {
+			work = append(work, site{upd, v})
+		}
+	})
 	seen := map[ssa.Value]bool{}
 	var dels []ssa.Instruction
 	nfn := 0
@@ -599,5 +610,64 @@ func c16More(p *Prog, r *Report) {
 			r.Check(bad == "", "C16.R4", fmt.Sprintf("restore of %q decodes into a destination without pre-set lists", key), p.InstrPos(in), "only scalar defaults are set before decoding",
 				"a slice or map field of the destination is given a default value at "+bad+" before viper.UnmarshalKey: the decoder merges element-wise into the existing list, so a saved list shorter than the default comes back with the default's tail appended, is announced, and overwrites the saved configuration")
 		})
+	}
+}
+
+// localMapAliases: a map kept in a field of a local struct variable (assigned once, at the
+// variable's construction) is the same map at every read of that field: returns a function that
+// sends such reads to the map value stored there, and any other value to itself.
+func localMapAliases(fn *ssa.Function) func(ssa.Value) ssa.Value {
+	alias := map[ssa.Value]ssa.Value{}
+	Instrs(fn, func(in ssa.Instruction) {
+		a, ok := in.(*ssa.Alloc)
+		if !ok {
+			return
+		}
+		st := derefStruct(a.Type())
+		if st == nil {
+			return
+		}
+		stored := map[int][]ssa.Value{}
+		loads := map[int][]ssa.Value{}
+		clean := true
+		for _, ref := range *a.Referrers() {
+			fa, ok := ref.(*ssa.FieldAddr)
+			if !ok {
+				if _, isDbg := ref.(*ssa.DebugRef); !isDbg {
+					clean = false // the struct as a whole goes somewhere: its fields may be rewritten there
+				}
+				continue
+			}
+			for _, r2 := range *fa.Referrers() {
+				switch x := r2.(type) {
+				case *ssa.Store:
+					if x.Addr == ssa.Value(fa) {
+						stored[fa.Field] = append(stored[fa.Field], x.Val)
+					}
+				case *ssa.UnOp:
+					loads[fa.Field] = append(loads[fa.Field], x)
+				}
+			}
+		}
+		if !clean {
+			return
+		}
+		for k, vals := range stored {
+			if len(vals) != 1 {
+				continue
+			}
+			if _, isMap := vals[0].Type().Underlying().(*types.Map); !isMap {
+				continue
+			}
+			for _, ld := range loads[k] {
+				alias[ld] = vals[0]
+			}
+		}
+	})
+	return func(v ssa.Value) ssa.Value {
+		if c, ok := alias[v]; ok {
+			return c
+		}
+		return v
 	}
 }
